@@ -96,6 +96,8 @@ class Lab(object):
         from werkzeug.wrappers import BaseRequest
         from clastic.application import DispatchState
         from clastic.route import BoundRoute
+        if name in self.cfg.get('url_int0', ()) and type(v) is int and v == 0:
+            return 'U:' + name            # the converted URL segment of an optional int binding: zero is a value, not absence
         if isinstance(v, Sent):
             ok = self.reg.get(v.tag) is v
             return v.tag if ok else v.tag + '!not-the-registered-object'
@@ -281,7 +283,10 @@ class Lab(object):
         key = spec['id']
         if key not in classes:
             lab = self
-            body = ['class MW%d(Middleware):' % key,
+            base = 'Middleware'
+            if spec.get('base') is not None and spec['base'] in classes:
+                base = 'Base'             # a middleware type derived from another middleware type of the configuration
+            body = ['class MW%d(%s):' % (key, base),
                     '    unique = %r' % bool(spec['unique']),
                     '    reorderable = %r' % bool(spec['reorderable']),
                     '    provides = %r' % (tuple(spec['provides']),),
@@ -297,6 +302,8 @@ class Lab(object):
                 body.append('    def %s(%s):' % (fname, params_src(sig, ['self'])))
                 body.append('        return _lab.mw_impl(self.inst, %r, self.%s, %s)' % (ph, prov, dict_src(sig)))
             ns = {'Middleware': Middleware, '_D': _D, '_lab': lab}
+            if base == 'Base':
+                ns['Base'] = classes[spec['base']][0]
             exec('\n'.join(body) + '\n', ns)
             classes[key] = (ns['MW%d' % key], spec)
         cls, first = classes[key]
@@ -338,7 +345,8 @@ class Lab(object):
             rn = self.make_callable(cfg['render']['sig'], cfg['render']['kind'], self.rn_impl)
         except SyntaxError as e:
             return 'HARNESS-SyntaxError:%s' % e
-        binds = ''.join('/<%s%s>' % (u, '+' if u in cfg.get('url_multi', ()) else '') for u in cfg['url'])
+        binds = ''.join('/<%s%s>' % (u, '?int' if u in cfg.get('url_int0', ()) else '+' if u in cfg.get('url_multi', ()) else '')
+                        for u in cfg['url'])
         pattern = '/r/k' + binds
         try:
             routes = []
@@ -401,7 +409,7 @@ def impl(cfg):
     c = lab.build()
     if c != 'ok':
         return {'construct': c}
-    route_path = '/r/k' + ''.join('/U:%s' % u for u in cfg['url'])    # a multi binding takes exactly one segment here
+    route_path = '/r/k' + ''.join('/%s' % ('0' if u in cfg.get('url_int0', ()) else 'U:' + u) for u in cfg['url'])    # a multi binding takes exactly one segment here
     if cfg.get('outer'):
         route_path = (''.join('/U:%s' % u for u in cfg['outer']['prefix_url']) or '/pre') + route_path
     obs = {'construct': 'ok'}
@@ -558,9 +566,11 @@ def gen_config(rng, defect=None, posonly=False, embed=None):
     rn_sig = gen_sig(rng, rn_first, pool, base + req_all + rn_acc, 2, posonly)
     cfg = {'resources': resources, 'route_resources': route_resources, 'url': url,
            'url_multi': [url[-1]] if (url and rng.random() < 0.3) else [],
+           'url_int0': [url[0]] if (len(url) >= 1 and rng.random() < 0.25) else [],
            'mws': [spec(m) for m in mws_app], 'route_mws': [spec(m) for m in mws_route],
            'endpoint': {'sig': ep_sig, 'kind': rng.choice(KINDS)},
            'render': {'sig': rn_sig, 'kind': rng.choice(KINDS), 'factory': rng.random() < 0.2}}
+    cfg['url_int0'] = [u for u in cfg['url_int0'] if u not in cfg['url_multi']]
     if outer is not None:
         outer['mws'] = [spec(m) for m in mws_outer]
         cfg['outer'] = outer
@@ -592,7 +602,7 @@ DEFECTS = ['dup_mw_mw', 'dup_mw_url', 'dup_mw_resource', 'dup_mw_builtin', 'dup_
            'next_in_render', 'context_in_request', 'context_in_endpoint', 'late_provider', 'unknown_name',
            'dup_within_tuple', 'cycle', 'ep_provides_in_render', 'first_not_next_instance', 'dup_same_mw_two_phases',
            'dup_prefix_resource', 'dup_prefix_mw', 'dup_prefix_builtin', 'reserved_outer_resource', 'dup_outer_mw_inner_mw',
-           'dup_prefix_outer_resource']
+           'dup_prefix_outer_resource', 'dup_mw_subclass']
 
 
 def all_specs(cfg):
@@ -640,6 +650,26 @@ def apply_defect(rng, cfg, d):
             add_prov(a, 'zy')
             if a['id'] != b['id']:
                 add_prov(b, 'zy')
+    elif d == 'dup_mw_subclass':
+        # two middleware TYPES related by inheritance, at different levels, offering one name
+        upper = cfg['outer']['mws'] if (cfg.get('outer') and cfg['outer']['mws']) else cfg['mws']
+        lower = cfg['route_mws'] if upper is not cfg['route_mws'] else []
+        if upper and upper is not lower:
+            a = upper[0]
+            clone = json.loads(json.dumps(a))
+            clone['inst'] = max(x['inst'] for x in specs) + 1
+            clone['id'] = max(x['id'] for x in specs) + 1
+            clone['base'] = a['id']
+            clone['unique'] = True
+            a['unique'] = True
+            sync(cfg, a)
+            for k in ('provides', 'endpoint_provides', 'render_provides'):
+                clone[k] = []
+            add_prov(a, 'zs')
+            clone['provides'] = ['zs']
+            if clone.get('request') is None:
+                clone['request'] = {'pos': ['next'], 'posonly': 0, 'kwonly': [], 'defaulted': []}
+            (cfg['route_mws'] if a not in cfg['route_mws'] else cfg['mws']).append(clone)
     elif d == 'dup_mw_mw' and len(specs) >= 2:
         a, b = rng.sample(specs, 2)
         n = 'zz'
